@@ -228,6 +228,11 @@ def check_string(s, out=None):
 # --------------------------------------------------------------------------- workers
 
 
+def _ex_order(e):
+    # smallest example first; everyday molecules before RDKit's exotic tiny aromatic rings
+    return (e.get("rank", 0), len(e["s"]), e["s"])
+
+
 class _Acc:
     """counts + failures grouped by key (count, a few smallest examples)"""
 
@@ -245,7 +250,7 @@ class _Acc:
         g["count"] += 1
         ex = g["examples"]
         ex.append(f)
-        ex.sort(key=lambda e: (len(e["s"]), e["s"]))
+        ex.sort(key=_ex_order)
         del ex[4:]
 
     def result(self):
@@ -347,6 +352,7 @@ def syntax_item(smiles):
             if remove_atom_mapping(s) != s:
                 acc.forms_changed += 1
         for f in fails:
+            f["rank"] = 0 if smiles in SYNTAX_AROMATICS else 1
             acc.fail(f)
     return acc.result()
 
@@ -380,7 +386,7 @@ def _merge(results, into):
             t = into["groups"].setdefault(k, {"key": g["key"], "count": 0, "examples": []})
             t["count"] += g["count"]
             t["examples"].extend(g["examples"])
-            t["examples"].sort(key=lambda e: (len(e["s"]), e["s"]))
+            t["examples"].sort(key=_ex_order)
             del t["examples"][3:]
 
 
@@ -427,7 +433,7 @@ def run(tier, seed):
             t["examples"].extend(dict(e, family=name) for e in g["examples"])
     for k in sorted(all_groups):
         g = all_groups[k]
-        g["examples"].sort(key=lambda e: (len(e["s"]), e["s"]))
+        g["examples"].sort(key=_ex_order)
         shown = set()
         for e in g["examples"]:
             if e["family"] in shown:
